@@ -240,6 +240,11 @@ Definition check (c : sx) : verdict :=
   | SList [SList [SInt 7; SInt _]; SList [SInt (-6); SInt k; _]] =>
       (* the client's own reaper goroutine (Go(): 3 s ticker), evaluated on the Go side *)
       if (k =? 0) || (k =? 9) then VOk else if k =? 5 then VPropFail 5 else if k =? 3 then VPropFail 3 else VPropFail 7
+  | SList [SList [SInt 8; SInt _; SInt _]; SList [SInt (-7); SInt k; _]] =>
+      (* a responder answering blocking Calls the moment their request is queued (the completion may
+         come before the caller has reached its receive), evaluated on the Go side; 12 = the caller
+         is never released (goroutine dump) *)
+      if (k =? 0) || (k =? 9) then VOk else VPropFail 3
   | SList [SList [SInt 6; SInt _; SInt _]; SList [SInt (-5); SInt k; _]] =>
       (* the time-to-live at sub-second resolution (sweeps just before / at / after issue instant + 60 s
          for calls issued at several phases of the wall clock), evaluated on the Go side *)
@@ -263,7 +268,7 @@ Definition check (c : sx) : verdict :=
       (* 11: the refusal was delivered under the client's mutex: the re-entering callback never returns
          (goroutine dump); 9: inconclusive *)
       if (k =? 0) || (k =? 9) then VOk
-      else if (k =? 2) || (k =? 8) || (k =? 10) || (k =? 11) then VPropFail 1 else VPropFail 2
+      else if (k =? 2) || (k =? 8) || (k =? 10) || (k =? 11) || (k =? 12) then VPropFail 1 else VPropFail 2
   | SList [SList [SInt c0; SList ops]; SList os] =>
       match map_opt hop_of ops, map_opt obs_of os with
       | Some ops, Some os =>
